@@ -1036,12 +1036,16 @@ def _sbml_to_model(
         # calculate hashmaps to lookup objects in O(1)
         sid_map = {}
         metaid_map = {}
-        for obj_list in [
+        obj_lists = [
             model.getListOfCompartments(),
             model.getListOfSpecies(),
             model.getListOfReactions(),
             model_groups.getListOfGroups(),
-        ]:
+        ]
+        if model_fbc:
+            # genes can be group members, too
+            obj_lists.insert(3, model_fbc.getListOfGeneProducts())
+        for obj_list in obj_lists:
             sbase: "libsbml.SBase"
             for sbase in obj_list:
                 if sbase.isSetId():
